@@ -343,6 +343,20 @@ Proof.
   - apply (Hcov _ _ _ H2).
 Qed.
 
+(* inside the envelope the content of every member is coherent at every point, hence also when converged *)
+Theorem converged_coherent : forall n hist final,
+  let c := C03Case n hist final in
+  c03_envelope c = true -> forallb coherent (run_sys (init_sys n) (hist ++ final)) = true.
+Proof.
+  intros n hist final c He. unfold c03_envelope in He. apply Bool.negb_true_iff in He. cbn [c c03_n c03_ops] in He.
+  pose proof (run_good (hist ++ final) (init_sys n) (init_good n) He) as G.
+  apply forallb_forall. intros r Hin. destruct (In_nth _ r empty_replica Hin) as [k [Hk Hn]].
+  specialize (G (N.of_nat k)). unfold get in G. rewrite Nat2N.id, Hn in G.
+  unfold coherent, stays_deleted. apply forallb_forall. intros m Hm. apply Bool.negb_true_iff.
+  destruct (below_tomb (tombs r) m) eqn:E; [|reflexivity]. exfalso.
+  destruct (below_tomb_true _ _ E) as [t [Ht [Hid Hle]]]. pose proof (g_inv _ G m t Hm Ht Hid). lia.
+Qed.
+
 (* ---------- closed witnesses / regression examples ---------- *)
 (* class 4 (open): if the log comparison skips a day on which the source holds a row the receiver lacks
    (history-hash shortcut), that row is never delivered by this pair *)
